@@ -82,6 +82,10 @@ func (e *posEngine) generate(r *rng, n int, tier string, emit func(string)) {
 	for i := 0; i < n; i++ {
 		fault := r.pick(faults)
 		tb := &textBuilder{line: 1}
+		if r.chance(1, 5) {
+			// a ';; $MODULE name' first line names the module only when the caller's cursor does not
+			tb.write(r.pick([]string{";; $MODULE other.lisp\n", ";; $MODULE scratch/old-dump.lisp\n", ";; $MODULE m2\n\n"}))
+		}
 		tb.write("(do\n")
 		for k, m := 0, r.intn(3); k < m; k++ {
 			tb.write(r.pick(fillerForms) + "\n")
